@@ -90,6 +90,7 @@ type Config struct {
 
 // Result of one simulated execution.
 type Result struct {
+	OpBound    bool // NoProgress is the per-operation bound (the run ended inside one call)
 	Steps      int64
 	Switches   int64
 	SchedHash  uint64
@@ -130,6 +131,7 @@ type task struct {
 }
 
 type sched struct {
+	opBound     bool // the run ended on the per-operation step bound
 	idle        bool // nobody holds the token: it waits for a task that blocked outside the scheduler (see goIdle)
 	cfg         Config
 	rng         *Rng
@@ -268,6 +270,21 @@ func AfterStore() {
 
 var afterStore bool
 
+// SetOpLimit bounds the steps of the call that follows (single-task worlds): n > 0 arms the bound, 0 disarms it. A
+// run that ends on this bound ended inside one call; a run that ends on MaxSteps merely was long.
+//
+//go:norace
+func SetOpLimit(n int64) {
+	if !active || n <= 0 {
+		opLimit = 0
+		return
+	}
+	opStart = cur.step
+	opLimit = cur.step + n
+}
+
+var opLimit, opStart int64
+
 // PoolSharedOut: steering only. For the next stretch of the run every scheduling point is a coin flip.
 //
 //go:norace
@@ -301,6 +318,11 @@ func point(sync bool) {
 	}
 	if s.step > max {
 		s.noprog = fmt.Sprintf("step bound %d exceeded (task %d running)", max, t.id)
+		s.abort()
+	}
+	if opLimit > 0 && s.step > opLimit {
+		s.noprog = fmt.Sprintf("operation step bound exceeded: %d steps inside one call (task %d)", s.step-opStart, t.id)
+		s.opBound = true
 		s.abort()
 	}
 	next := s.pick(t, sync)
@@ -752,7 +774,7 @@ func Run(cfg Config, fns []func()) Result {
 	if s.dead == "" && s.noprog == "" {
 		s.join.Wait() // real acquire edge: everything the tasks did happens-before what follows
 	}
-	r := Result{Steps: s.step, Switches: s.sw, SchedHash: s.hash, Deadlock: s.dead, NoProgress: s.noprog,
+	r := Result{Steps: s.step, Switches: s.sw, SchedHash: s.hash, Deadlock: s.dead, NoProgress: s.noprog, OpBound: s.opBound,
 		GCs: s.gcs, SwitchLog: append([]Switch(nil), s.log[:s.nlog]...), PoolStats: poolSt, BlockedAcq: s.blkAcq}
 	for _, t := range s.tasks {
 		r.TaskSteps = append(r.TaskSteps, t.steps)
